@@ -761,7 +761,8 @@ func c20ParseCase(r *Run, rng *Rng) {
 					}
 				}
 			}
-			if miss {
+			if miss && !c20OpcodeReported {
+				c20OpcodeReported = true
 				r.Failf("C20.parse_render.opcode", "c20 parse <any instruction line>", "Instruction.OpCode is nil after parsing a line whose opcode token is present (opcode parsing is commented out in extractInst)")
 			}
 		}
@@ -842,6 +843,8 @@ func c20InstCase(r *Run, rng *Rng) {
 }
 
 // ------------------------------------------------------------------ driver
+
+var c20OpcodeReported bool
 
 func c20Repo() string {
 	if d := os.Getenv("VERIF_REPO"); d != "" {
